@@ -34,7 +34,7 @@ def shards(tier):
 
 
 def required_classes(tier):
-    out = ["g1:u:exceptional", "g1:u:zero", "g1:u:special", "g1:u:random", "g2:u:zero", "g2:u:special", "g2:u:zero-part", "g2:u:random",
+    out = ["g1:iso:kernel", "g2:iso:kernel", "g1:u:maps-to-kernel", "g2:u:maps-to-kernel", "g1:u:exceptional", "g1:u:zero", "g1:u:special", "g1:u:random", "g2:u:zero", "g2:u:special", "g2:u:zero-part", "g2:u:random",
            "g1:hash", "g2:hash", "hash:dst=255", "hash:dst=256", "hash:dst=0", "g1:iso:rescaled", "g2:iso:rescaled",
            "g1:gx1:square", "g1:gx1:nonsquare", "g2:gx1:square", "g2:gx1:nonsquare"]
     out += ["g2:sqrt:root%d" % k for k in range(4)] + ["g2:sqrt:eta%d" % k for k in range(4)]
@@ -123,6 +123,59 @@ def u_pool_g2(rng, n_random):
     return out
 
 
+def kernel_inputs(g, rng):
+    """Points of the isogenous curve E' that the isogeny sends to the identity (rational roots of the x-denominator), and
+    field elements u whose simplified-SWU image is such a point (the SWU equations solved backwards).  RFC 9380 defines the
+    map on all of E'; on the kernel the result is the identity."""
+    from ..model.gf import poly_roots_fp
+    F, S, iso = (F1, M.G1_SSWU, M.ISO11) if g == 1 else (F2, M.G2_SSWU, M.ISO3)
+    xs = []
+    if g == 1:
+        xs = [(r,) for r in poly_roots_fp([c[0] for c in iso.xd], F.p, rng)]
+    else:
+        # x^2 + k1 x + k0 over Fp2 (the table's x-denominator has degree 2): quadratic formula
+        co = [c for c in iso.xd]
+        while len(co) > 1 and not any(co[-1]):
+            co.pop()
+        if len(co) == 3:
+            a2, a1, a0 = co[2], co[1], co[0]
+            disc = F.sub(F.mul(a1, a1), F.smul(F.mul(a2, a0), 4))
+            sq = F.sqrt(disc)
+            if sq is not None:
+                inv2a = F.inv(F.smul(a2, 2))
+                xs = [F.mul(F.sub(F.neg(a1), sq), inv2a), F.mul(F.add(F.neg(a1), sq), inv2a)]
+    pts, us = [], []
+    A, B, Z = S.A, S.B, S.Z
+    mBA = F.mul(F.neg(B), F.inv(A))
+    for x in xs:
+        y = F.sqrt(S.E.rhs(x))
+        if y is None:
+            continue
+        pts += [(tuple(x), y), (tuple(x), F.neg(y))]
+        cprime = F.mul(x, F.inv(mBA))                       # x * (-A/B)
+        cands = []
+        c = F.sub(cprime, F.one)                            # x = x1(t):  1/(t^2+t) = c
+        if any(c):
+            d = F.sqrt(F.add(F.one, F.smul(F.inv(c), 4)))
+            if d is not None:
+                half = F.inv(F.smul(F.one, 2))
+                cands += [F.mul(F.sub(d, F.one), half), F.mul(F.sub(F.neg(d), F.one), half)]
+        b1 = F.sub(F.one, cprime)                           # x = t*x1(t):  t^2 + (1-c')t + (1-c') = 0
+        d2 = F.sqrt(F.sub(F.mul(b1, b1), F.smul(b1, 4)))
+        if d2 is not None:
+            half = F.inv(F.smul(F.one, 2))
+            cands += [F.mul(F.sub(d2, b1), half), F.mul(F.sub(F.neg(d2), b1), half)]
+        for t in cands:
+            u = F.sqrt(F.mul(t, F.inv(Z)))
+            if u is None:
+                continue
+            for uu in (u, F.neg(u)):
+                Q, _ = S.map(uu)
+                if Q[0] == tuple(x):
+                    us.append(uu)
+    return pts, us
+
+
 def run(rec):
     import_all()
     hmon.install(["h2f1", "h2f2", "swu1", "swu2", "iso1", "iso2", "map1", "map2", "clear1", "clear2", "hash1", "hash2"])
@@ -159,6 +212,30 @@ def run(rec):
             x, y, z = (CG.mk_el(cls[g], Q[0]) * CG.mk_el(cls[g], s), CG.mk_el(cls[g], Q[1]) * CG.mk_el(cls[g], s), CG.mk_el(cls[g], s))
             rec.case("g%d:iso:rescaled" % g, ("iso", g, Q, s))
             call(iso, x, y, z)
+
+    # ------------------------------------------------------------ the kernel of the isogeny (image = identity) and its SWU preimages
+    for g in (1, 2):
+        F = F1 if g == 1 else F2
+        kp, ku = kernel_inputs(g, rng)
+        rec.notes.setdefault("isogeny_kernel_G%d" % g, "%d rational kernel points, %d field elements u mapped onto them" % (len(kp), len(ku)))
+        iso = getattr(swu, "iso_map_G%d" % g)
+        mp = getattr(h2c, "map_to_curve_G%d" % g)
+        clr = getattr(h2c, "clear_cofactor_G%d" % g)
+        for Q in kp:
+            for sc in (None, CG.rand_scale(F, rng)):
+                zc = F.one if sc is None else sc
+                x, y, z = (CG.mk_el(cls[g], F.mul(Q[0], zc)), CG.mk_el(cls[g], F.mul(Q[1], zc)), CG.mk_el(cls[g], zc))
+                rec.case("g%d:iso:kernel" % g, ("isok", g, Q, sc), sample={"fn": "iso_map_G%d" % g, "point": "kernel point of the isogeny", "x": Q[0]})
+                st, img = call(iso, x, y, z)
+                if st == "ok":
+                    call(clr, img)                                    # what hash_to_curve does next with such an image
+        for u in ku:
+            rec.case("g%d:u:maps-to-kernel" % g, ("uker", g, u), sample={"fn": "map_to_curve_G%d" % g, "u": u, "class": "SWU image in the kernel of the isogeny"})
+            call(mp, CG.mk_el(cls[g], u))
+        if not kp:
+            rec.waive("g%d:iso:kernel" % g, "the x-denominator of the isogeny has no root with a rational y on E'")
+        if not ku:
+            rec.waive("g%d:u:maps-to-kernel" % g, "no field element maps onto a rational kernel point")
 
     # ------------------------------------------------------------ full hashes
     msgs = msg_pool(rng, big=not quick)
